@@ -57,13 +57,19 @@ def ensure_dep_typelibs(build):
     if os.path.exists(ok):
         return d
     os.makedirs(d, exist_ok=True)
-    for n in ('GLib-2.0', 'GObject-2.0', 'Gio-2.0'):
-        rc, err = compile_file(build, os.path.join(DEPS, n + '.gir'), os.path.join(d, n + '.typelib.tmp'))
-        if rc != 0:
-            from vt.core import HarnessBroken
-            raise HarnessBroken('cannot compile dependency %s: %s' % (n, err))
-        os.replace(os.path.join(d, n + '.typelib.tmp'), os.path.join(d, n + '.typelib'))
-    open(ok, 'w').close()
+    import fcntl
+    with open(os.path.join(d, '.lock'), 'w') as lk:      # several worker processes may get here at once
+        fcntl.flock(lk, fcntl.LOCK_EX)
+        if os.path.exists(ok):
+            return d
+        for n in ('GLib-2.0', 'GObject-2.0', 'Gio-2.0'):
+            tmp = os.path.join(d, '%s.typelib.tmp%d' % (n, os.getpid()))
+            rc, err = compile_file(build, os.path.join(DEPS, n + '.gir'), tmp)
+            if rc != 0:
+                from vt.core import HarnessBroken
+                raise HarnessBroken('cannot compile dependency %s: %s' % (n, err))
+            os.replace(tmp, os.path.join(d, n + '.typelib'))
+        open(ok, 'w').close()
     return d
 
 
